@@ -733,3 +733,182 @@ package vm
 //@   loop 2: invariant numbits <= 32 && pc <= uint64(len(code)) + 32 && pc + uint64(numbits) <= uint64(len(code)) + 32 && len(bits) == len(code)/8 + 5
 //@   ensures [len] len(result) == len(code)/8 + 5
 //@   modifies nothing
+
+// ---------------------------------------------------------------------------------------------
+// Memory primitives (C10/C11)
+
+//@ func Memory.Set
+//@   property C10 C11
+//@   requires m != nil && (size > 0 ==> offset < 4611686018427387904 && size < 4611686018427387904 && offset + size <= uint64(len(m.store)))
+//@   requires [sep] ref(value) != ref(m.store)
+//@   ensures [copy!slow]  forall i int :: 0 <= i && uint64(i) < size && i < len(value) ==> m.store[int(offset) + i] == old(value[i])
+//@   ensures [below] size > 0 ==> unchanged(m.store, 0, offset)
+//@   ensures [above!slow] size > 0 ==> unchanged(m.store, offset + size, len(m.store))
+//@   ensures [noop]  size == 0 ==> unchanged(m.store, 0, len(m.store))
+//@   modifies elems(m.store)
+
+//@ func Memory.Resize
+//@   property C10 C11
+//@   requires m != nil && size <= 137438953440
+//@   ensures [len]    uint64(len(m.store)) == ite(old(uint64(len(m.store))) < size, size, old(uint64(len(m.store))))
+//@   ensures [gas]    m.lastGasCost == old(m.lastGasCost)
+//@   modifies m.store, elems(m.store)
+
+//@ func Memory.GetPtr
+//@   property C10 C11
+//@   requires m != nil && (size != 0 ==> offset >= 0 && size > 0 && offset < 4611686018427387904 && size < 4611686018427387904 && offset + size <= int64(len(m.store)))
+//@   ensures [nil]   size == 0 ==> len(result) == 0
+//@   ensures [view]  size != 0 ==> len(result) == int(size) && ref(result) == ref(m.store) && off(result) == off(m.store) + int(offset)
+//@   modifies nothing
+
+//@ func Memory.GetCopy
+//@   property C10 C11
+//@   requires m != nil && (size != 0 ==> offset >= 0 && size > 0 && offset < 4611686018427387904 && size < 4611686018427387904 && offset + size <= int64(len(m.store)))
+//@   ensures [nil]   size == 0 ==> len(cpy) == 0
+//@   ensures [len]   size != 0 ==> len(cpy) == int(size) && fresh(cpy)
+//@   ensures [copy]  size != 0 ==> forall i int :: 0 <= i && i < int(size) ==> cpy[i] == m.store[int(offset) + i]
+//@   modifies nothing
+
+//@ func Memory.Copy
+//@   property C10 C11
+//@   requires m != nil && (len > 0 ==> dst < 4611686018427387904 && src < 4611686018427387904 && len < 4611686018427387904 && dst + len <= uint64(len(m.store)) && src + len <= uint64(len(m.store)))
+//@   ensures [copy!slow]  forall i int :: 0 <= i && uint64(i) < len ==> m.store[int(dst) + i] == old(m.store[int(src) + i])
+//@   ensures [below] len > 0 ==> unchanged(m.store, 0, dst)
+//@   ensures [above!slow] len > 0 ==> unchanged(m.store, dst + len, len(m.store))
+//@   modifies elems(m.store)
+
+//@ func getData
+//@   property C10 C11
+//@   requires size < 4611686018427387904
+//@   ensures [len]  uint64(len(result)) == size
+//@   ensures [data!slow] forall i int :: 0 <= i && uint64(i) < size ==> result[i] == ite(start < uint64(len(data)) && uint64(i) < uint64(len(data)) - start, data[int(start) + i], byte(0))
+//@   ensures [alias] ref(result) == ref(data) || fresh(result)
+//@   modifies nothing
+
+// ---------------------------------------------------------------------------------------------
+// Copy opcodes, call data, jumps, halting opcodes (C10/C11/C12)
+//@ spec fn memFits(off u256, n u256, memLen uint64) bool = n == 0 || (off < 4611686018427387904 && n < 4611686018427387904 && low64(off) + low64(n) <= memLen)
+
+//@ func opCallDataLoad
+//@   property C10 C11 C12
+//@   requires callContext != nil && callContext.stack != nil && callContext.contract != nil && len(callContext.stack.data) >= 1
+//@   ensures [len]  len(callContext.stack.data) == old(len(callContext.stack.data))
+//@   ensures [word!slow] each k 0 32 :: byte(callContext.stack.data[len(callContext.stack.data)-1] >> (8*(31 - k)))
+//@                    == ite(old(callContext.stack.data[len(callContext.stack.data)-1]) < zext(256, uint64(len(callContext.contract.Input))) && uint64(k) < uint64(len(callContext.contract.Input)) - low64(old(callContext.stack.data[len(callContext.stack.data)-1])),
+//@                           callContext.contract.Input[int(low64(old(callContext.stack.data[len(callContext.stack.data)-1]))) + k], byte(0))
+//@   ensures [rest] forall i int :: 0 <= i && i < len(callContext.stack.data)-1 ==> callContext.stack.data[i] == old(callContext.stack.data[i])
+//@   ensures [ret]  result1 == nil && len(result0) == 0
+//@   ensures [pc]   *pc == old(*pc)
+//@   modifies elems(callContext.stack.data)
+
+//@ func opCallDataCopy
+//@   property C10 C11 C12
+//@   requires callContext != nil && callContext.stack != nil && callContext.memory != nil && callContext.contract != nil && len(callContext.stack.data) >= 3
+//@   requires [mem] memFits(callContext.stack.data[len(callContext.stack.data)-1], callContext.stack.data[len(callContext.stack.data)-3], uint64(len(callContext.memory.store)))
+//@   requires [len64] callContext.stack.data[len(callContext.stack.data)-3] < 4611686018427387904
+//@   requires [sep] ref(callContext.memory.store) != ref(callContext.stack.data) && ref(callContext.memory.store) != ref(callContext.contract.Input)
+//@   ensures [len]  len(callContext.stack.data) == old(len(callContext.stack.data)) - 3
+//@   ensures [rest] forall i int :: 0 <= i && i < len(callContext.stack.data) ==> callContext.stack.data[i] == old(callContext.stack.data[i])
+//@   ensures [ret]  result1 == nil && len(result0) == 0
+//@   ensures [pc]   *pc == old(*pc)
+//@   ensures [memlen] len(callContext.memory.store) == old(len(callContext.memory.store))
+//@   modifies callContext.stack.data, elems(callContext.memory.store)
+
+//@ func opCodeCopy
+//@   property C10 C11 C12
+//@   requires callContext != nil && callContext.stack != nil && callContext.memory != nil && callContext.contract != nil && len(callContext.stack.data) >= 3
+//@   requires [mem] memFits(callContext.stack.data[len(callContext.stack.data)-1], callContext.stack.data[len(callContext.stack.data)-3], uint64(len(callContext.memory.store)))
+//@   requires [len64] callContext.stack.data[len(callContext.stack.data)-3] < 4611686018427387904
+//@   requires [sep] ref(callContext.memory.store) != ref(callContext.stack.data) && ref(callContext.memory.store) != ref(callContext.contract.Code)
+//@   ensures [len]  len(callContext.stack.data) == old(len(callContext.stack.data)) - 3
+//@   ensures [rest] forall i int :: 0 <= i && i < len(callContext.stack.data) ==> callContext.stack.data[i] == old(callContext.stack.data[i])
+//@   ensures [ret]  result1 == nil && len(result0) == 0
+//@   ensures [pc]   *pc == old(*pc)
+//@   modifies callContext.stack.data, elems(callContext.memory.store)
+
+//@ func opReturnDataCopy
+//@   property C10 C11 C12
+//@   requires interpreter != nil && callContext != nil && callContext.stack != nil && callContext.memory != nil && len(callContext.stack.data) >= 3
+//@   requires [mem] memFits(callContext.stack.data[len(callContext.stack.data)-1], callContext.stack.data[len(callContext.stack.data)-3], uint64(len(callContext.memory.store)))
+//@   requires [sep] ref(callContext.memory.store) != ref(callContext.stack.data) && ref(callContext.memory.store) != ref(interpreter.returnData)
+//@   ensures [len]  len(callContext.stack.data) == old(len(callContext.stack.data)) - 3
+//@   ensures [rest] forall i int :: 0 <= i && i < len(callContext.stack.data) ==> callContext.stack.data[i] == old(callContext.stack.data[i])
+//@   ensures [oob]  (result1 == nil) == (wide(old(callContext.stack.data[len(callContext.stack.data)-2])) + wide(old(callContext.stack.data[len(callContext.stack.data)-3])) <= zext(512, uint64(len(interpreter.returnData))))
+//@   ensures [pc]   *pc == old(*pc)
+//@   modifies callContext.stack.data, elems(callContext.memory.store)
+
+//@ func opMcopy
+//@   property C10 C11 C12
+//@   requires scope != nil && scope.stack != nil && scope.memory != nil && len(scope.stack.data) >= 3
+//@   requires [mem] memFits(scope.stack.data[len(scope.stack.data)-1], scope.stack.data[len(scope.stack.data)-3], uint64(len(scope.memory.store))) && memFits(scope.stack.data[len(scope.stack.data)-2], scope.stack.data[len(scope.stack.data)-3], uint64(len(scope.memory.store)))
+//@   requires [sep] ref(scope.memory.store) != ref(scope.stack.data)
+//@   ensures [len]  len(scope.stack.data) == old(len(scope.stack.data)) - 3
+//@   ensures [copy] forall i int :: 0 <= i && zext(256, uint64(i)) < old(scope.stack.data[len(scope.stack.data)-3]) ==> scope.memory.store[int(low64(old(scope.stack.data[len(scope.stack.data)-1]))) + i] == old(scope.memory.store[int(low64(scope.stack.data[len(scope.stack.data)-2])) + i])
+//@   ensures [rest] forall i int :: 0 <= i && i < len(scope.stack.data) ==> scope.stack.data[i] == old(scope.stack.data[i])
+//@   ensures [ret]  result1 == nil && len(result0) == 0
+//@   modifies scope.stack.data, elems(scope.memory.store)
+
+//@ func opJump
+//@   property C10 C11 C12
+//@   requires pc != nil && callContext != nil && callContext.stack != nil && callContext.contract != nil && len(callContext.stack.data) >= 1 && len(callContext.contract.Code) < 1099511627776
+//@   requires [analysis] callContext.contract.analysis != nil ==> uint64(len(callContext.contract.analysis)) > uint64(len(callContext.contract.Code)) / 8
+//@   requires [cache] callContext.contract.jumpdests != nil && (has(callContext.contract.jumpdests, callContext.contract.CodeHash) ==> uint64(len(callContext.contract.jumpdests[callContext.contract.CodeHash])) > uint64(len(callContext.contract.Code)) / 8)
+//@   ensures [len]   len(callContext.stack.data) == old(len(callContext.stack.data)) - 1
+//@   ensures [taken] result1 == nil ==> zext(256, *pc) == old(callContext.stack.data[len(callContext.stack.data)-1]) && *pc < uint64(len(callContext.contract.Code)) && callContext.contract.Code[*pc] == 91
+//@   ensures [err]   result1 != nil ==> result1 == ErrInvalidJump && *pc == old(*pc)
+//@   ensures [rest]  forall i int :: 0 <= i && i < len(callContext.stack.data) ==> callContext.stack.data[i] == old(callContext.stack.data[i])
+//@   modifies *pc, callContext.stack.data, callContext.contract.analysis, heap("map[common.Hash]vm.bitvec")
+
+//@ func opJumpi
+//@   property C10 C11 C12
+//@   requires pc != nil && callContext != nil && callContext.stack != nil && callContext.contract != nil && len(callContext.stack.data) >= 2 && len(callContext.contract.Code) < 1099511627776
+//@   requires [analysis] callContext.contract.analysis != nil ==> uint64(len(callContext.contract.analysis)) > uint64(len(callContext.contract.Code)) / 8
+//@   requires [cache] callContext.contract.jumpdests != nil && (has(callContext.contract.jumpdests, callContext.contract.CodeHash) ==> uint64(len(callContext.contract.jumpdests[callContext.contract.CodeHash])) > uint64(len(callContext.contract.Code)) / 8)
+//@   ensures [len]   len(callContext.stack.data) == old(len(callContext.stack.data)) - 2
+//@   ensures [taken] result1 == nil && old(callContext.stack.data[len(callContext.stack.data)-2]) != 0 ==> zext(256, *pc) == old(callContext.stack.data[len(callContext.stack.data)-1]) && *pc < uint64(len(callContext.contract.Code)) && callContext.contract.Code[*pc] == 91
+//@   ensures [fall]  old(callContext.stack.data[len(callContext.stack.data)-2]) == 0 ==> result1 == nil && *pc == old(*pc) + 1
+//@   ensures [err]   result1 != nil ==> result1 == ErrInvalidJump && *pc == old(*pc)
+//@   ensures [rest]  forall i int :: 0 <= i && i < len(callContext.stack.data) ==> callContext.stack.data[i] == old(callContext.stack.data[i])
+//@   modifies *pc, callContext.stack.data, callContext.contract.analysis, heap("map[common.Hash]vm.bitvec")
+
+//@ func opJumpdest
+//@   property C10 C11 C12
+//@   ensures result1 == nil && len(result0) == 0
+//@   modifies nothing
+
+//@ func opStop
+//@   property C10 C11 C12
+//@   ensures result1 == nil && len(result0) == 0
+//@   modifies nothing
+
+//@ func opReturn
+//@   property C10 C11 C12
+//@   requires callContext != nil && callContext.stack != nil && callContext.memory != nil && len(callContext.stack.data) >= 2
+//@   requires [mem] memFits(callContext.stack.data[len(callContext.stack.data)-1], callContext.stack.data[len(callContext.stack.data)-2], uint64(len(callContext.memory.store)))
+//@   requires [len64] callContext.stack.data[len(callContext.stack.data)-2] < 4611686018427387904
+//@   ensures [len]  len(callContext.stack.data) == old(len(callContext.stack.data)) - 2
+//@   ensures [data] result1 == nil && zext(256, uint64(len(result0))) == old(callContext.stack.data[len(callContext.stack.data)-2])
+//@   ensures [view] len(result0) > 0 ==> ref(result0) == ref(callContext.memory.store) && off(result0) == off(callContext.memory.store) + int(low64(old(callContext.stack.data[len(callContext.stack.data)-1])))
+//@   modifies callContext.stack.data
+
+//@ func opRevert
+//@   property C10 C11 C12
+//@   requires callContext != nil && callContext.stack != nil && callContext.memory != nil && len(callContext.stack.data) >= 2
+//@   requires [mem] memFits(callContext.stack.data[len(callContext.stack.data)-1], callContext.stack.data[len(callContext.stack.data)-2], uint64(len(callContext.memory.store)))
+//@   requires [len64] callContext.stack.data[len(callContext.stack.data)-2] < 4611686018427387904
+//@   ensures [len]  len(callContext.stack.data) == old(len(callContext.stack.data)) - 2
+//@   ensures [data] result1 == nil && zext(256, uint64(len(result0))) == old(callContext.stack.data[len(callContext.stack.data)-2])
+//@   ensures [view] len(result0) > 0 ==> ref(result0) == ref(callContext.memory.store) && off(result0) == off(callContext.memory.store) + int(low64(old(callContext.stack.data[len(callContext.stack.data)-1])))
+//@   modifies callContext.stack.data
+
+//@ func makePush$1
+//@   property C10 C11 C12
+//@   requires pc != nil && callContext != nil && callContext.stack != nil && callContext.contract != nil && *pc < 4611686018427387904 && pushByteSize >= 1 && pushByteSize <= 32 && size == uint64(pushByteSize) && len(callContext.contract.Code) < 1099511627776
+//@   ensures [len]  len(callContext.stack.data) == old(len(callContext.stack.data)) + 1
+//@   ensures [full!slow] old(*pc) + 1 + uint64(pushByteSize) <= uint64(len(callContext.contract.Code)) ==> callContext.stack.data[len(callContext.stack.data)-1] == @be256(arr(callContext.contract.Code), off(callContext.contract.Code) + int(old(*pc)) + 1, pushByteSize)
+//@   ensures [empty!slow] old(*pc) + 1 >= uint64(len(callContext.contract.Code)) ==> callContext.stack.data[len(callContext.stack.data)-1] == 0
+//@   # not claimed: the value when the push data is cut short by the end of the code (zero padding on the right)
+//@   ensures [rest] forall i int :: 0 <= i && i < old(len(callContext.stack.data)) ==> callContext.stack.data[i] == old(callContext.stack.data[i])
+//@   ensures [pc]   *pc == old(*pc) + size
+//@   ensures [ret]  result1 == nil && len(result0) == 0
+//@   modifies *pc, callContext.stack.data, elems(callContext.stack.data)
